@@ -116,7 +116,7 @@ func TestRaceLog(t *testing.T) {
 	if len(reps) != 1 {
 		t.Fatalf("want 1 complete report, got %d", len(reps))
 	}
-	if reps[0].HarnessOnly || reps[0].Sig != "ExecutePlan.func2|encoding/json.Marshal" {
+	if reps[0].HarnessOnly || reps[0].Sig != "ExecutePlan.func2|harness:c16.(*run).marshal" {
 		t.Fatalf("sig: %q harnessOnly=%v", reps[0].Sig, reps[0].HarnessOnly)
 	}
 	if reps := l.Poll(); len(reps) != 0 {
